@@ -319,7 +319,12 @@ func TestC04(t *testing.T) {
 	V := []gen.TField{oct, A[1]}
 	W := []gen.TField{octFixed, A[1]}
 	recV := [][]ref.Value{{{B: []byte{0xAA, 0xBB, 0xCC}}, {U: 6}}, {{B: []byte{}}, {U: 17}}}
+	// the same element id and length under another enterprise number (a reverse element)
+	P := []gen.TField{named("packetDeltaCount", 0), A[1]}
+	PR := []gen.TField{named("reversePacketDeltaCount", 29305), A[1]}
+	recP := [][]ref.Value{{{U: 77}, {U: 6}}}
 	alphabet2 := []Step{
+		{Kind: "tpl", Domain: 1, ID: 256, Fields: P}, {Kind: "tpl", Domain: 1, ID: 256, Fields: PR}, {Kind: "data", Domain: 1, ID: 256, Fields: P, Recs: recP},
 		{Kind: "tpl", Domain: 1, ID: 256, Fields: U}, {Kind: "tpl", Domain: 1, ID: 256, Fields: U5}, {Kind: "tpl", Domain: 1, ID: 256, Fields: UV},
 		{Kind: "data", Domain: 1, ID: 256, Fields: U, Recs: recU}, {Kind: "data", Domain: 1, ID: 256, Fields: U5, Recs: recU5}, {Kind: "data", Domain: 1, ID: 256, Fields: UV, Recs: recUV},
 		{Kind: "tpl", Domain: 1, ID: 256, Fields: A}, {Kind: "data", Domain: 1, ID: 256, Fields: A, Recs: recA},
